@@ -371,7 +371,21 @@ def c04_level2(ctx):
     c04l2.run(ctx, bins, peer, ctx.tier)
 
 
+def c05(ctx):
+    import e2e, c05 as c05mod
+    bins = e2e.build_all(ctx, race=True)
+    peer = ctx.build_bin("cmd/verifpeer", False)
+    if not bins or not peer:
+        return
+    c05mod.run(ctx, bins, peer, ctx.tier)
+
+
 SPECS = {
+    "C05": {"fn": c05, "level": "exploration",
+            "technique": "runtime monitoring at process boundaries under the race detector: offline checker over a monotonic event log written by scriptable helper peers (exactly-once dispatch, matching and alive server, overlap bound, cleanup) plus the runner's output, against the selection computed by independent models",
+            "text": "The race-built runner is executed with helper peers that log, at their own boundary, every ServerCompatRequest, ClientCompatRequest and arriving RPC; the checker requires the multiset of issued permutations to equal the independently computed selection (minus those whose server was scripted not to start, which must be reported), each request to address a live server whose logged configuration equals the permutation's axes (probed by TCP/TLS/QUIC handshake or observed by the very instance that received the RPC), the test-name header, at most --max-servers overlapping server lifetimes, a stop for every started server and termination.",
+            "note": "Interleavings of the batch goroutines are sampled by varying --max-servers, GOMAXPROCS and peer latencies; alive intervals are logged subsets of real lifetimes (the bound check cannot raise a false alarm).",
+            "assumptions": ["CLOCK_MONOTONIC is shared by all processes of a run", "model_*_test.go compute the selected set"]},
     "C04": {"fn": c04, "level": "exploration",
             "technique": "runtime monitoring: truth-table oracle over (a) the real testResults driven through its entry points from concurrent goroutines and (b) the real runner binary with scripted helper peers realising each outcome kind; observed: report() value / process exit status, FAILED and INFO lines, summary totals",
             "text": "Every assignment of outcome kind x marking x feedback to 1-2 cases (3 cases stratified/complete) and random assignments to 4-12 cases are applied to the real results object and the printed report is compared with the truth table (verdict, naming of every failing case, accounting of every case exactly once). The same rows are realised end to end with the real binary and a scripted client/server (verifpeer).",
